@@ -373,6 +373,38 @@ theorem livePeriodsFrom_char (ps : List PeriodDef) (E F nl : Nat) (l : List OutP
   rw [livePeriodsFrom_state ps E F nl hn] at h
   exact liveLoop_char ps E F hn _ _ l h
 
+/-- the number of listed Periods is bounded by what the guard of e70c912 computes (with the
+exact floor): at most `len · (1 + ⌊(E − nl·D) / D⌋)` -/
+theorem livePeriodsFrom_length (ps : List PeriodDef) (E F nl : Nat) (l : List OutPeriod)
+    (hD : 0 < totalDuration ps) (hnl : nl * totalDuration ps ≤ E)
+    (h : livePeriodsFrom ps E F nl = some l) :
+    l.length ≤ ps.length * (1 + (E - nl * totalDuration ps) / totalDuration ps) := by
+  have hn := pos_of_total_pos hD
+  obtain ⟨s, e, hs1, hs2, hl, c1, _, _, _⟩ := livePeriodsFrom_char ps E F nl l hn h
+  have hlen : l.length = e - s := by rw [hl]; simp
+  -- the last emitted position lies in a loop that starts at or before E
+  have hdiv : (E - nl * totalDuration ps) / totalDuration ps = E / totalDuration ps - nl := by
+    rw [Nat.mul_comm]; exact Nat.sub_mul_div _ _ _
+  have he : e ≤ (E / totalDuration ps + 1) * ps.length := by
+    by_cases hq : e ≤ (E / totalDuration ps + 1) * ps.length
+    · exact hq
+    · have hx := c1 ((E / totalDuration ps + 1) * ps.length)
+        (by have : nl ≤ E / totalDuration ps := (Nat.le_div_iff_mul_le hD).mpr hnl
+            have := Nat.mul_le_mul_right ps.length this
+            rw [Nat.add_mul]; omega)
+        (by omega)
+      have hge := startG_ge_loops (durations ps) (totalDuration ps) ((E / totalDuration ps + 1) * ps.length)
+      rw [durations_length, Nat.mul_div_cancel _ hn] at hge
+      have := (div_mul_le_lt E (totalDuration ps) hD).2
+      omega
+  have hnle : nl ≤ E / totalDuration ps := (Nat.le_div_iff_mul_le hD).mpr hnl
+  rw [hlen, hdiv]
+  have : ps.length * (1 + (E / totalDuration ps - nl)) = (E / totalDuration ps + 1) * ps.length - nl * ps.length := by
+    have e1 : 1 + (E / totalDuration ps - nl) = E / totalDuration ps + 1 - nl := by omega
+    rw [e1, Nat.mul_comm, Nat.sub_mul]
+  rw [this]
+  omega
+
 theorem range_map_getElem (ps : List PeriodDef) (s m i : Nat)
     (h : i < ((List.range' s m).map (pos ps)).length) :
     ((List.range' s m).map (pos ps))[i] = pos ps (s + i) := by
